@@ -103,6 +103,17 @@ def is_panic_fn(name):
         or n in ("std::rt::panic_fmt",)
 
 
+# Functions that execute their closure argument before returning successfully although the
+# call happens on another thread (the job is boxed, queued, run by a pool worker and the
+# submitter blocks on the result channel) - not derivable from the MIR of the function itself.
+RUNNERS = {
+    "multithreading::runner::SharedTaskRunner::run":
+        "sends the task to the pool and blocks on rx.recv(); Ok only if the task returned Ok",
+    "multithreading::runner::SharedTaskRunner::run_with_result":
+        "sends the task to the pool and blocks on rx.recv(); Ok only if the task returned Ok",
+}
+
+
 class Call:
     __slots__ = ("fn", "bb", "term", "callee", "defn", "gargs", "rgargs", "trait", "line", "ind", "rkind")
 
@@ -490,6 +501,14 @@ class Program:
             raise AnchorMissing("function `%s` not found" % fid)
         return f
 
+    def method(self, adt, name, trait=None):
+        """the inherent (or trait) method `name` of type `adt` — independent of how generics print"""
+        c = [f for f in self.fns.values() if f.impl_adt == adt and f.name == name and f.kind == "assoc"
+             and (f.impl_trait == trait)]
+        if len(c) != 1:
+            raise AnchorMissing("method `%s` of `%s`%s: %d candidates" % (name, adt, " as " + trait if trait else "", len(c)))
+        return c[0]
+
     def find_fns(self, pattern):
         rx = re.compile(pattern)
         return [f for k, f in sorted(self.fns.items()) if rx.search(k)]
@@ -678,9 +697,40 @@ class Program:
                 prim = [t for t in ts]
                 if prim and all(t in T for t in prim):
                     out.add(c.bb)
-            # closure argument executed by a callee known to run its argument
-            # is handled by rules explicitly (not assumed here)
+            # a closure handed to a function that runs its closure argument on every
+            # success path (derived: `hof()`; listed: RUNNERS) executes at this site
+            if main is not None and (main in self.hof() or main in RUNNERS):
+                cl = f.closure_locals()
+                for o in c.args:
+                    l = op_local(o)
+                    if l is not None and any(x in T for x in cl.get(l, ())):
+                        out.add(c.bb)
         return out
+
+    def hof(self):
+        """functions that call a closure-typed generic parameter on every success path"""
+        if getattr(self, "_hof", None) is None:
+            self._hof = set()  # break recursion: blocks_calling consults hof()
+            base = {"std::ops::FnOnce::call_once", "std::ops::FnMut::call_mut", "std::ops::Fn::call"}
+            h = set()
+            changed = True
+            while changed:
+                changed = False
+                for f in self.fns.values():
+                    if f.id in h:
+                        continue
+                    hit = {c.bb for c in f.calls() if c.defn in base and c.term["fn"].get("res") is None}
+                    # forwarding the own closure-typed parameter to a known higher-order function
+                    gen = {i for i in range(1, f.nargs + 1) if re.fullmatch(r"[A-Z][A-Za-z0-9]{0,3}", f.locals[i])}
+                    if gen:
+                        for c in f.calls():
+                            if c.callee in h and any(op_local(o) in gen for o in c.args):
+                                hit.add(c.bb)
+                    if hit and f.success_returns_from(0) and not f.success_returns_from(0, blocked=hit):
+                        h.add(f.id)
+                        changed = True
+            self._hof = h
+        return self._hof
 
     def all_success_paths_call(self, f, T, start):
         """every success path from block `start` of f to a return passes a call into T"""
@@ -696,3 +746,139 @@ class Program:
 
 class AnchorMissing(Exception):
     pass
+
+
+# ----------------------------------------------------------------------------
+# match tables: switches on enum discriminants and on integers
+# ----------------------------------------------------------------------------
+
+def strip_ref(ty):
+    ty = ty.strip()
+    for pre in ("&mut ", "&"):
+        if ty.startswith(pre):
+            return ty[len(pre):].strip()
+    if ty.startswith("std::boxed::Box<") and ty.endswith(">"):
+        return ty[len("std::boxed::Box<"):-1]
+    return ty
+
+
+def adt_of_type(ty):
+    """path of the ADT a type string names (generic args dropped)"""
+    ty = ty.strip()
+    i = ty.find("<")
+    return ty[:i] if i > 0 else ty
+
+
+def place_type(prog, f, place):
+    """best-effort type string of a place (None when a generic field type is met)"""
+    ty = f.locals[place[0]]
+    variant = None
+    for pe in place[1:]:
+        if pe == "*":
+            ty = strip_ref(ty)
+        elif isinstance(pe, str) and pe.startswith("@"):
+            variant = pe[1:]
+        elif isinstance(pe, str) and pe.startswith("."):
+            name, _, adt = pe[1:].partition(":")
+            a = prog.adts.get(adt)
+            if a is None:
+                return None
+            vs = a["variants"]
+            v = vs[0]
+            if variant is not None:
+                for x in vs:
+                    if x["name"] == variant:
+                        v = x
+            variant = None
+            fty = None
+            for fl in v["fields"]:
+                if fl["n"] == name:
+                    fty = fl["ty"]
+            if fty is None:
+                return None
+            ty = fty
+        else:
+            return None
+    return ty
+
+
+def enum_switches(prog, f):
+    """yields (block, enum adt path, {variant name: target block}, otherwise block, scrutinee place)"""
+    for bi, b in enumerate(f.blocks):
+        t = b["term"]
+        if t["t"] != "switch":
+            continue
+        l = op_local(t["o"])
+        if l is None:
+            continue
+        # the discriminant read feeding this switch (same block, or a dominating block)
+        src = None
+        for s in reversed(b["stmts"]):
+            if s["dst"] == [l] and s["rv"].get("r") == "discr":
+                src = s["rv"]["p"]
+                break
+        if src is None:
+            continue
+        ty = place_type(prog, f, src)
+        if ty is None:
+            continue
+        adt = adt_of_type(strip_ref(ty))
+        a = prog.adts.get(adt)
+        if a is None or a["kind"] != "enum":
+            continue
+        by_discr = {str(v["discr"]): v["name"] for v in a["variants"]}
+        m = {}
+        for val, tgt in t["targets"]:
+            n = by_discr.get(str(val))
+            if n is not None:
+                m[n] = tgt
+        yield bi, adt, m, t["otherwise"], src
+
+
+def int_switches(f, ty=None):
+    """switches whose scrutinee is an integer (not a discriminant read in the same block)"""
+    for bi, b in enumerate(f.blocks):
+        t = b["term"]
+        if t["t"] != "switch":
+            continue
+        if ty and t["ty"] != ty:
+            continue
+        l = op_local(t["o"])
+        is_discr = any(s["dst"] == [l] and s["rv"].get("r") == "discr" for s in b["stmts"])
+        if is_discr:
+            continue
+        yield bi, t
+
+
+def dominated(f, b):
+    """set of blocks dominated by block b"""
+    return {x for x in range(len(f.blocks)) if f.dominates(b, x)}
+
+
+def region_calls(f, blocks):
+    return [c for c in f.calls() if c.bb in blocks]
+
+
+def region_aggregates(f, blocks, adt=None):
+    out = []
+    for bi in sorted(blocks):
+        for s in f.blocks[bi]["stmts"]:
+            rv = s["rv"]
+            if rv.get("r") == "agg" and rv.get("akind") == "adt" and (adt is None or rv.get("adt") == adt):
+                out.append((bi, s))
+    return out
+
+
+def diverges(f, start):
+    """no `ret` is reachable from block start (along normal edges)"""
+    r = f.reachable(start)
+    return not any(f.blocks[b]["term"]["t"] == "ret" for b in r)
+
+
+def panics_in(prog, f, blocks):
+    """panic-family calls (todo!/unreachable!/panic!/unwrap failed...) inside blocks"""
+    out = []
+    for c in f.calls():
+        if c.bb in blocks and is_panic_fn(c.callee):
+            out.append(c)
+    return out
